@@ -1,7 +1,9 @@
 """Extractor for tools/src/{init_database,dump}.rs (C20): the context-free literals — the delimiters, the
 quote / comment / syllable-separator characters and the dump format strings.  Numbers whose meaning depends on
 the surrounding code (`.nth(1)`, `.skip(2)`, `line_num == 0`, `line_num + 1`, the one-character rule) are part of
-the hand-written model and tied by the correspondence runs instead."""
+the hand-written model and tied by the correspondence runs instead.  From src/dictionary/trie.rs only the one arm
+of the leaf comparator of `TrieBuilder::write` that decides a pair "one character long / longer" (the arm a pending
+upstream fix rewrites) is recognised, in either of its two known forms."""
 import re
 from extractlib import *
 
@@ -122,4 +124,25 @@ def x_cli():
          "/-- first line of `dump --csv` -/",
          f"def dumpCsvHeader : List Nat := {cps(header)}",
          "\nend Chewing.Gen\n"]
-    return {"CliFormat.lean": "\n".join(L)}
+    return {"CliFormat.lean": "\n".join(L), "CliTrieCmp.lean": trie_cmp()}
+
+
+def trie_cmp():
+    """which verdict the comparator of `TrieBuilder::write` gives on (one character, longer phrase)"""
+    raw = read("src/dictionary/trie.rs")
+    w = squash(fn_body(strip_comments(raw), "write", after=r"impl\s+TrieBuilder\s*\{"))
+    m = need(r"phrases\.sort_by\(\|a,b\|\{match\(a\.as_str\(\)\.chars\(\)\.count\(\),b\.as_str\(\)\.chars\(\)\.count\(\)\)\{"
+             r"\(1,1\)=>Ordering::Equal,(.*?)_=>\{", w, "leaf comparator of TrieBuilder::write")
+    arm = m.group(1)
+    if arm == "(1,_)|(_,1)=>a.as_str().len().cmp(&b.as_str().len()),":
+        mode, what = 0, "by UTF-8 length: `(1, _) | (_, 1) => a.as_str().len().cmp(&b.as_str().len())`"
+    elif arm == "(1,_)=>Ordering::Less,(_,1)=>Ordering::Greater,":
+        mode, what = 1, "the one-character phrase first: `(1, _) => Less, (_, 1) => Greater`"
+    else:
+        raise ExtractError(f"leaf comparator: arm for (one character, longer) not recognised: {arm!r}")
+    return "\n".join([HEADER.format(src="src/dictionary/trie.rs (TrieBuilder::write)", h=sha(w)),
+                      "namespace Chewing.Gen\n",
+                      "/-- leaf comparator of `TrieBuilder::write` on a pair of which exactly one is one character long:",
+                      f"    0 = by UTF-8 length, 1 = the one-character phrase first.  Now: {what} -/",
+                      f"def trieMixedCmp : Nat := {mode}",
+                      "\nend Chewing.Gen\n"])
